@@ -239,14 +239,16 @@ impl<'a> BTreeReader<'a> {
             match header.page_type() {
                 PageType::BTreeLeaf => {
                     let leaf = LeafNode::from_page(page_data)?;
-                    let exhausted = leaf.cell_count() == 0;
-                    return Ok(Cursor {
+                    let _ = leaf;
+                    let mut cursor = Cursor {
                         storage: self.storage,
                         root_page: self.root_page,
                         current_page,
                         current_index: 0,
-                        exhausted,
-                    });
+                        exhausted: false,
+                    };
+                    cursor.skip_empty_leaves()?;
+                    return Ok(cursor);
                 }
                 PageType::BTreeInterior => {
                     let interior = InteriorNode::from_page(page_data)?;
@@ -277,12 +279,23 @@ impl<'a> BTreeReader<'a> {
                     let leaf = LeafNode::from_page(page_data)?;
                     let cell_count = leaf.cell_count() as usize;
                     if cell_count == 0 {
-                        return Ok(Cursor {
+                        // the rightmost leaf was emptied by deletes: the last entry is further left
+                        let probe = Cursor {
                             storage: self.storage,
                             root_page: self.root_page,
                             current_page,
                             current_index: 0,
                             exhausted: true,
+                        };
+                        return Ok(match probe.find_rightmost_nonempty(self.root_page)? {
+                            Some((page_no, last_index)) => Cursor {
+                                storage: self.storage,
+                                root_page: self.root_page,
+                                current_page: page_no,
+                                current_index: last_index,
+                                exhausted: false,
+                            },
+                            None => probe,
                         });
                     }
                     return Ok(Cursor {
@@ -364,14 +377,15 @@ impl<'a> BTreeReader<'a> {
                         SearchResult::NotFound(idx) => idx,
                     };
 
-                    let exhausted = index >= leaf.cell_count() as usize;
-                    return Ok(Cursor {
+                    let mut cursor = Cursor {
                         storage: self.storage,
                         root_page: self.root_page,
                         current_page,
                         current_index: index,
-                        exhausted,
-                    });
+                        exhausted: false,
+                    };
+                    cursor.skip_empty_leaves()?;
+                    return Ok(cursor);
                 }
                 PageType::BTreeInterior => {
                     let interior = InteriorNode::from_page(page_data)?;
@@ -1263,14 +1277,16 @@ impl<'a, S: Storage> BTree<'a, S> {
             match header.page_type() {
                 PageType::BTreeLeaf => {
                     let leaf = LeafNode::from_page(page_data)?;
-                    let exhausted = leaf.cell_count() == 0;
-                    return Ok(Cursor {
+                    let _ = leaf;
+                    let mut cursor = Cursor {
                         storage: self.storage,
                         root_page: self.root_page,
                         current_page,
                         current_index: 0,
-                        exhausted,
-                    });
+                        exhausted: false,
+                    };
+                    cursor.skip_empty_leaves()?;
+                    return Ok(cursor);
                 }
                 PageType::BTreeInterior => {
                     let interior = InteriorNode::from_page(page_data)?;
@@ -1304,14 +1320,15 @@ impl<'a, S: Storage> BTree<'a, S> {
                         SearchResult::NotFound(idx) => idx,
                     };
 
-                    let exhausted = index >= leaf.cell_count() as usize;
-                    return Ok(Cursor {
+                    let mut cursor = Cursor {
                         storage: self.storage,
                         root_page: self.root_page,
                         current_page,
                         current_index: index,
-                        exhausted,
-                    });
+                        exhausted: false,
+                    };
+                    cursor.skip_empty_leaves()?;
+                    return Ok(cursor);
                 }
                 PageType::BTreeInterior => {
                     let interior = InteriorNode::from_page(page_data)?;
@@ -1339,12 +1356,23 @@ impl<'a, S: Storage> BTree<'a, S> {
                     let leaf = LeafNode::from_page(page_data)?;
                     let cell_count = leaf.cell_count() as usize;
                     if cell_count == 0 {
-                        return Ok(Cursor {
+                        // the rightmost leaf was emptied by deletes: the last entry is further left
+                        let probe = Cursor {
                             storage: self.storage,
                             root_page: self.root_page,
                             current_page,
                             current_index: 0,
                             exhausted: true,
+                        };
+                        return Ok(match probe.find_rightmost_nonempty(self.root_page)? {
+                            Some((page_no, last_index)) => Cursor {
+                                storage: self.storage,
+                                root_page: self.root_page,
+                                current_page: page_no,
+                                current_index: last_index,
+                                exhausted: false,
+                            },
+                            None => probe,
                         });
                     }
                     return Ok(Cursor {
@@ -1423,15 +1451,36 @@ impl<'a, S: Storage + ?Sized> Cursor<'a, S> {
 
         self.current_page = next_page;
         self.current_index = 0;
+        self.skip_empty_leaves()
+    }
 
-        let next_page_data = self.storage.page(self.current_page)?;
-        let next_leaf = LeafNode::from_page(next_page_data)?;
-        if next_leaf.cell_count() == 0 {
-            self.exhausted = true;
-            return Ok(false);
+    /// If the cursor stands past the last cell of its leaf (in particular on an emptied leaf, which
+    /// delete never unlinks), move it to the first cell of the next non-empty leaf.
+    fn skip_empty_leaves(&mut self) -> Result<bool> {
+        loop {
+            let page_data = self.storage.page(self.current_page)?;
+            let leaf = LeafNode::from_page(page_data)?;
+            if self.current_index < leaf.cell_count() as usize {
+                self.exhausted = false;
+                return Ok(true);
+            }
+            let next_page = leaf.next_leaf();
+            if next_page == 0 {
+                self.exhausted = true;
+                return Ok(false);
+            }
+            let page_count = self.storage.page_count();
+            if next_page >= page_count {
+                bail!(
+                    "corrupt next_leaf pointer: page {} has next_leaf={} but page_count={}",
+                    self.current_page,
+                    next_page,
+                    page_count
+                );
+            }
+            self.current_page = next_page;
+            self.current_index = 0;
         }
-
-        Ok(true)
     }
 
     pub fn prev(&mut self) -> Result<bool> {
@@ -1512,54 +1561,47 @@ impl<'a, S: Storage + ?Sized> Cursor<'a, S> {
         }
 
         while let Some((parent_page, child_idx)) = path.pop() {
-            if child_idx > 0 {
-                let page_data = self.storage.page(parent_page)?;
-                let interior = InteriorNode::from_page(page_data)?;
-
-                let prev_child = if child_idx == 1 {
-                    interior.slot_at(0)?.child_page()
-                } else if child_idx > 1 {
-                    let target_idx = child_idx - 1;
-                    if target_idx < interior.cell_count() as usize {
-                        interior.slot_at(target_idx)?.child_page()
-                    } else {
-                        interior.right_child()
-                    }
-                } else {
-                    continue;
-                };
-
-                return self.find_rightmost_in_subtree(prev_child);
+            let page_data = self.storage.page(parent_page)?;
+            let interior = InteriorNode::from_page(page_data)?;
+            // siblings to the left, nearest first; subtrees whose leaves were all emptied are skipped
+            for idx in (0..child_idx).rev() {
+                let prev_child = interior.slot_at(idx)?.child_page();
+                if let Some(found) = self.find_rightmost_nonempty(prev_child)? {
+                    return Ok(Some(found));
+                }
             }
         }
 
         Ok(None)
     }
 
-    fn find_rightmost_in_subtree(&self, mut page_no: u32) -> Result<Option<(u32, usize)>> {
-        loop {
-            let page_data = self.storage.page(page_no)?;
-            let header = PageHeader::from_bytes(page_data)?;
-
-            match header.page_type() {
-                PageType::BTreeLeaf => {
-                    let leaf = LeafNode::from_page(page_data)?;
-                    let count = leaf.cell_count() as usize;
-                    if count == 0 {
-                        return Ok(None);
-                    }
-                    return Ok(Some((page_no, count - 1)));
-                }
-                PageType::BTreeInterior => {
-                    let interior = InteriorNode::from_page(page_data)?;
-                    page_no = interior.right_child();
-                }
-                _ => bail!(
-                    "unexpected page type {:?} during find_rightmost at page {}",
-                    header.page_type(),
-                    page_no
-                ),
+    /// Last cell of the rightmost non-empty leaf below `page_no` (delete never unlinks emptied leaves).
+    fn find_rightmost_nonempty(&self, page_no: u32) -> Result<Option<(u32, usize)>> {
+        let page_data = self.storage.page(page_no)?;
+        let header = PageHeader::from_bytes(page_data)?;
+        match header.page_type() {
+            PageType::BTreeLeaf => {
+                let leaf = LeafNode::from_page(page_data)?;
+                let count = leaf.cell_count() as usize;
+                Ok(if count == 0 { None } else { Some((page_no, count - 1)) })
             }
+            PageType::BTreeInterior => {
+                let interior = InteriorNode::from_page(page_data)?;
+                if let Some(found) = self.find_rightmost_nonempty(interior.right_child())? {
+                    return Ok(Some(found));
+                }
+                for idx in (0..interior.cell_count() as usize).rev() {
+                    if let Some(found) = self.find_rightmost_nonempty(interior.slot_at(idx)?.child_page())? {
+                        return Ok(Some(found));
+                    }
+                }
+                Ok(None)
+            }
+            _ => bail!(
+                "unexpected page type {:?} during find_rightmost_nonempty at page {}",
+                header.page_type(),
+                page_no
+            ),
         }
     }
 }
